@@ -36,10 +36,11 @@ type debOutcome struct {
 	indexKeys       []string
 	effects         []string
 	undecided       string
+	errText         string // what went into the error returned (format and operands), "" when it is not one of fmt.Errorf's
 }
 
 func (o debOutcome) sig() string {
-	return fmt.Sprintf("err=%v ext=%s/%s data=%s control-from=%s keys=%v", !o.errNil, o.controlExt, o.dataExt, o.dataProv, o.unmarshaled, o.indexKeys)
+	return fmt.Sprintf("err=%v%s ext=%s/%s data=%s control-from=%s keys=%v", !o.errNil, o.errText, o.controlExt, o.dataExt, o.dataProv, o.unmarshaled, o.indexKeys)
 }
 
 var ctorNames = map[string]string{
@@ -49,6 +50,9 @@ var ctorNames = map[string]string{
 	"github.com/kjk/lzma.NewReader":                "lzma",
 	"github.com/klauspost/compress/zstd.NewReader": "zstd",
 }
+
+// tarEntrySize: the length of every entry of a scripted tar stream.
+const tarEntrySize = 100
 
 func debProv(st *State, v Val) string {
 	switch x := v.(type) {
@@ -123,6 +127,31 @@ func debMachine(p *Prog, sc debScenario) *Machine {
 			return []Val{OpaqueV{"zstdopt:" + opt + "(" + strings.Join(as, " ") + ")"}}, true
 		}
 	}
+	// errors made by fmt.Errorf without %w carry their format and operands, so that two runs can be compared for
+	// the error they report (the text is all a caller can compare, log or deduplicate on)
+	plainErrorf := m.Hooks["fmt.Errorf"]
+	m.Hooks["fmt.Errorf"] = func(m *Machine, st *State, call *ssa.CallCommon, args []Val) ([]Val, bool) {
+		format, ok := args[0].(string)
+		if !ok || strings.Contains(format, "%w") || len(args) < 2 {
+			return plainErrorf(m, st, call, args)
+		}
+		elems, many, ok := m.sliceElems(st, args[1])
+		if !ok || many {
+			return plainErrorf(m, st, call, args)
+		}
+		var ops []string
+		for _, e := range elems {
+			if iv, isI := e.(IfaceV); isI {
+				e = iv.V
+			}
+			if sv, isStr := e.(string); isStr {
+				ops = append(ops, strconv.Quote(sv))
+			} else {
+				ops = append(ops, "_")
+			}
+		}
+		return []Val{IfaceV{T: errType, V: "error: " + format + " <- " + strings.Join(ops, ", ")}}, true
+	}
 	m.Hooks["io.NopCloser"] = func(m *Machine, st *State, call *ssa.CallCommon, args []Val) ([]Val, bool) {
 		return []Val{IfaceV{T: ifT, V: opaque(st, debProv(st, args[0]))}}, true
 	}
@@ -144,8 +173,120 @@ func debMachine(p *Prog, sc debScenario) *Machine {
 		if n >= len(sc.tarEntries) || tarHdr == nil {
 			return []Val{&TupleV{E: []Val{nilV{}, eofVal}}}, true
 		}
-		id := st.alloc(tarHdr, mkStruct(tarHdr, map[string]Val{"Name": sc.tarEntries[n]}))
+		id := st.alloc(tarHdr, mkStruct(tarHdr, map[string]Val{"Name": sc.tarEntries[n], "Size": int64(tarEntrySize)}))
 		return []Val{&TupleV{E: []Val{Ptr{Obj: id}, nilV{}}}}, true
+	}
+	// reading an entry of a tar stream: every entry is tarEntrySize bytes long; one Read hands out at most 60 of
+	// them (a Reader may always return less than asked for), io.ReadAll and io.ReadFull what is left / asked for.
+	// filled[array object] remembers where the bytes of a buffer came from.
+	type fill struct {
+		from string
+		n    int
+	}
+	filled := map[int]fill{}
+	delivered := func(st *State, who string) int {
+		n := 0
+		for _, e := range st.Effects {
+			if strings.HasPrefix(e, "tarread:"+who+":") {
+				k, _ := strconv.Atoi(e[len("tarread:"+who+":"):])
+				n += k
+			}
+			if e == "tarnext:"+who {
+				n = 0
+			}
+		}
+		return n
+	}
+	readInto := func(st *State, who string, dst Val, most int) (int, bool) {
+		sl, ok := dst.(SliceV)
+		if !ok || sl.Abs {
+			return 0, false
+		}
+		left := tarEntrySize - delivered(st, who)
+		n := sl.Len_
+		if n > most {
+			n = most
+		}
+		if n > left {
+			n = left
+		}
+		note(st, fmt.Sprintf("tarread:%s:%d", who, n))
+		f := filled[sl.Obj]
+		filled[sl.Obj] = fill{who, f.n + n}
+		return n, true
+	}
+	m.Hooks["(*archive/tar.Reader).Read"] = func(m *Machine, st *State, call *ssa.CallCommon, args []Val) ([]Val, bool) {
+		who := debProv(st, args[0])
+		if tarEntrySize-delivered(st, who) == 0 {
+			return []Val{&TupleV{E: []Val{int64(0), eofVal}}}, true
+		}
+		n, ok := readInto(st, who, args[1], 60)
+		if !ok {
+			return nil, false
+		}
+		return []Val{&TupleV{E: []Val{int64(n), nilV{}}}}, true
+	}
+	readFull := func(m *Machine, st *State, call *ssa.CallCommon, args []Val) ([]Val, bool) {
+		who := debProv(st, args[0])
+		if !strings.HasPrefix(who, "tar(") {
+			return nil, false
+		}
+		sl, _ := args[1].(SliceV)
+		n, ok := readInto(st, who, args[1], 1<<30)
+		if !ok {
+			return nil, false
+		}
+		if n < sl.Len_ {
+			return []Val{&TupleV{E: []Val{int64(n), unexpectedEOFVal}}}, true
+		}
+		return []Val{&TupleV{E: []Val{int64(n), nilV{}}}}, true
+	}
+	m.Hooks["io.ReadFull"] = readFull
+	readAll := func(m *Machine, st *State, call *ssa.CallCommon, args []Val) ([]Val, bool) {
+		who := debProv(st, args[0])
+		if !strings.HasPrefix(who, "tar(") {
+			return nil, false
+		}
+		left := tarEntrySize - delivered(st, who)
+		arr := &ArrayV{}
+		for i := 0; i < left; i++ {
+			arr.E = append(arr.E, int64('x'))
+		}
+		id := st.alloc(types.NewArray(types.Typ[types.Uint8], int64(left)), arr)
+		note(st, fmt.Sprintf("tarread:%s:%d", who, left))
+		filled[id] = fill{who, left}
+		return []Val{&TupleV{E: []Val{SliceV{Obj: id, Len_: left, Cap: left}, nilV{}}}}, true
+	}
+	m.Hooks["io.ReadAll"] = readAll
+	m.Hooks["io/ioutil.ReadAll"] = readAll
+	bytesReader := func(kind string) HookFn {
+		return func(m *Machine, st *State, call *ssa.CallCommon, args []Val) ([]Val, bool) {
+			if sl, ok := args[0].(SliceV); ok && !sl.Abs {
+				if f, has := filled[sl.Obj]; has {
+					if sl.Len_ == tarEntrySize && f.n >= tarEntrySize {
+						// the whole entry, read into memory first: as good as the stream itself
+						return []Val{opaque(st, f.from)}, true
+					}
+					got := sl.Len_
+					if f.n < got {
+						got = f.n
+					}
+					return []Val{opaque(st, fmt.Sprintf("%s(%d of the %d bytes of an entry of %s)", kind, got, tarEntrySize, f.from))}, true
+				}
+			}
+			return []Val{opaque(st, kind+"("+valStr(args[0])+")")}, true
+		}
+	}
+	m.Hooks["bytes.NewBuffer"] = bytesReader("bytes")
+	m.Hooks["bytes.NewReader"] = bytesReader("bytes")
+	// gzip in single-member mode
+	m.Hooks["(*compress/gzip.Reader).Multistream"] = func(m *Machine, st *State, call *ssa.CallCommon, args []Val) ([]Val, bool) {
+		note(st, fmt.Sprintf("multistream:%s:%s", debProv(st, args[0]), valStr(args[1])))
+		return []Val{nil}, true
+	}
+	// the zstd decoder's own closer
+	m.Hooks["(*github.com/klauspost/compress/zstd.Decoder).IOReadCloser"] = func(m *Machine, st *State, call *ssa.CallCommon, args []Val) ([]Val, bool) {
+		return []Val{IfaceV{T: ifT, V: opaque(st, debProv(st, args[0]))}}, true
 	}
 	m.Hooks["bufio.NewReader"] = func(m *Machine, st *State, call *ssa.CallCommon, args []Val) ([]Val, bool) {
 		note(st, "bufionew:"+debProv(st, args[0])) // a new buffered reader starts at the member's beginning
@@ -205,9 +346,7 @@ func debMachine(p *Prog, sc debScenario) *Machine {
 	m.Hooks["strings.NewReader"] = func(m *Machine, st *State, call *ssa.CallCommon, args []Val) ([]Val, bool) {
 		return []Val{opaque(st, "strings("+valStr(args[0])+")")}, true
 	}
-	m.Hooks["bytes.NewReader"] = func(m *Machine, st *State, call *ssa.CallCommon, args []Val) ([]Val, bool) {
-		return []Val{opaque(st, "bytes("+valStr(args[0])+")")}, true
-	}
+
 	m.Hooks["io.MultiReader"] = func(m *Machine, st *State, call *ssa.CallCommon, args []Val) ([]Val, bool) {
 		elems, _, ok := m.sliceElems(st, args[0])
 		if !ok {
@@ -295,6 +434,11 @@ func runLoadDeb(p *Prog, sc debScenario) ([]debOutcome, string) {
 		tv := o.Ret.(*TupleV)
 		_, oc.errNil = tv.E[1].(nilV)
 		_, oc.resNil = tv.E[0].(nilV)
+		if iv, isI := tv.E[1].(IfaceV); isI {
+			if txt, isStr := iv.V.(string); isStr && strings.HasPrefix(txt, "error: ") {
+				oc.errText = " (" + txt + ")"
+			}
+		}
 		if dp, ok := tv.E[0].(Ptr); ok {
 			dv, _ := o.load(dp)
 			sv := dv.(*StructV)
